@@ -444,6 +444,11 @@ def run(run, model):
     run.try_rule(r15_4, model)
     run.try_rule(r15_5, model)
     run.try_rule(r15_6, model, mir)
+    from rules import c03
+    run.rule("R15.7", "a changed trait bound changes the interface hash: the hashed exports are FnSchemes, so the bounds of a generic item have "
+                      "to be part of FnScheme (shared with C03 R03.10) - today `fn show_all[T: Show]` and `fn show_all[T: Debug]` export the "
+                      "same scheme and a dependant built against the first still links against the second")
+    run.try_rule(c03.r03_10, model)
     run.assume("serde_json serialisation of the reachable types is injective on values (outside the repository)")
     run.assume("R15.4 recognises pairwise checking written as nested loops or iterator closures over `<unit>.deps`; a refactor that "
                "first copies the pairs into another collection is reported for review rather than followed")
